@@ -254,6 +254,60 @@ impl<R: RTraits> TileManager<R> {
     }
 }
 
+/// Verification hook: sorted, read-only copy of the three internal maps.
+#[cfg(feature = "verif")]
+#[derive(Debug, Clone, PartialEq, Eq, Hash, PartialOrd, Ord)]
+pub struct VerifSnapshot {
+    /// `tile_id` -> `(Some(hash), None)` for in-memory tiles, `(None, Some((offset, length)))` for reader-backed tiles
+    pub tile_by_id: Vec<(u64, Option<u64>, Option<(u64, u32)>)>,
+    /// hash -> stored bytes
+    pub data_by_hash: Vec<(u64, Vec<u8>)>,
+    /// hash -> ids referring to it
+    pub ids_by_hash: Vec<(u64, Vec<u64>)>,
+    /// whether a backing reader is present
+    pub has_reader: bool,
+}
+
+#[cfg(feature = "verif")]
+impl<R> TileManager<R> {
+    pub fn verif_snapshot(&self) -> VerifSnapshot {
+        let mut tile_by_id = self
+            .tile_by_id
+            .iter()
+            .map(|(id, t)| match t {
+                TileManagerTile::Hash(h) => (*id, Some(*h), None),
+                TileManagerTile::OffsetLength(o, l) => (*id, None, Some((*o, *l))),
+            })
+            .collect::<Vec<_>>();
+        tile_by_id.sort_unstable();
+
+        let mut data_by_hash = self
+            .data_by_hash
+            .iter()
+            .map(|(h, d)| (*h, d.clone()))
+            .collect::<Vec<_>>();
+        data_by_hash.sort_unstable();
+
+        let mut ids_by_hash = self
+            .ids_by_hash
+            .iter()
+            .map(|(h, ids)| {
+                let mut ids = ids.iter().copied().collect::<Vec<_>>();
+                ids.sort_unstable();
+                (*h, ids)
+            })
+            .collect::<Vec<_>>();
+        ids_by_hash.sort_unstable();
+
+        VerifSnapshot {
+            tile_by_id,
+            data_by_hash,
+            ids_by_hash,
+            has_reader: self.reader.is_some(),
+        }
+    }
+}
+
 impl Default for TileManager<Cursor<&[u8]>> {
     fn default() -> Self {
         Self::new(None)
